@@ -490,6 +490,15 @@ func c08Units(tier string, seed int64) []Unit {
 			sort.Strings(ks)
 			return strings.Join(ks, ",")
 		}
+		safely := func(sm rapid.StateMachine, how string) (m map[string]func(*rapid.T)) {
+			defer func() {
+				if r := recover(); r != nil {
+					c.Violate(Violation{Sig: "C08 reflective StateMachineActions-panics", Detail: fmt.Sprintf("StateMachineActions(%s): %v", how, r)})
+					m = map[string]func(*rapid.T){}
+				}
+			}()
+			return rapid.StateMachineActions(sm)
+		}
 		want := func(got map[string]func(*rapid.T), exp, how string) {
 			c.R.Evals++
 			c.R.States++
@@ -499,20 +508,20 @@ func c08Units(tier string, seed int64) []Unit {
 			}
 		}
 		// type 1: pointer first, then value, then pointer again
-		want(rapid.StateMachineActions(&vmPtrFirst{}), `"","Add","Get"`, "&vmPtrFirst{}")
-		want(rapid.StateMachineActions(vmPtrFirst{}), `"","Get"`, "vmPtrFirst{}")
-		want(rapid.StateMachineActions(&vmPtrFirst{}), `"","Add","Get"`, "&vmPtrFirst{} again")
+		want(safely(&vmPtrFirst{}, "&vmPtrFirst{}"), `"","Add","Get"`, "&vmPtrFirst{}")
+		want(safely(vmPtrFirst{}, "vmPtrFirst{}"), `"","Get"`, "vmPtrFirst{}")
+		want(safely(&vmPtrFirst{}, "&vmPtrFirst{} again"), `"","Add","Get"`, "&vmPtrFirst{} again")
 		// type 2: value first, then pointer
-		want(rapid.StateMachineActions(vmValFirst{}), `"","Get"`, "vmValFirst{}")
-		want(rapid.StateMachineActions(&vmValFirst{}), `"","Add","Get"`, "&vmValFirst{}")
+		want(safely(vmValFirst{}, "vmValFirst{}"), `"","Get"`, "vmValFirst{}")
+		want(safely(&vmValFirst{}, "&vmValFirst{}"), `"","Add","Get"`, "&vmValFirst{}")
 		// and the actions run the methods they are named after, the invariant is Check
 		for _, how := range []string{"ptr", "val"} {
 			calls = nil
 			var acts map[string]func(*rapid.T)
 			if how == "ptr" {
-				acts = rapid.StateMachineActions(&vmPtrFirst{})
+				acts = safely(&vmPtrFirst{}, "&vmPtrFirst{}")
 			} else {
-				acts = rapid.StateMachineActions(vmPtrFirst{})
+				acts = safely(vmPtrFirst{}, "vmPtrFirst{}")
 			}
 			rapid.VerifRunSeed(tb, 3, false, func(t *rapid.T) {
 				for _, k := range []string{"Add", "Get", ""} {
